@@ -1084,11 +1084,14 @@ class LifecycleMonitor:
                         sess.violation('c06:taskcancelled-wrong-subject',
                                        '%s awaiting %s got TaskCancelled of another task' % (
                                            awaiter, name))
-                    if args != first[1]:
+                    # With repeated cancels a later one can overtake the first while that is
+                    # still unwinding through asynchronous exit handlers; the statement does not
+                    # say which token wins, so any token of an effective cancel() is accepted.
+                    if args not in [call[1] for call in effective]:
                         sess.violation(
                             'c06:taskcancelled-wrong-token',
                             '%s awaiting %s got token %r, cancel() was called with %r' % (
-                                awaiter, name, args, first[1]))
+                                awaiter, name, args, [call[1] for call in effective]))
         # every awaiter of one task sees the same outcome (identity for exceptions)
         for name, records in env.await_results.items():
             outcomes = {(kind, ident) for _, kind, ident, _, _, _ in records}
